@@ -6,6 +6,7 @@ Answers: `ok …` / `fail <kind>` / `bad-op`.
 import CocoVerif.Model.Img
 import CocoVerif.Model.Compile
 import CocoVerif.Model.ProcBank
+import CocoVerif.Model.Cli
 import CocoVerif.Props.C14
 import CocoVerif.Gen.EcbHelpers
 
@@ -178,12 +179,38 @@ def handleLib (args : List String) : String :=
       | _ => "bad-op"
   | _ => "bad-op"
 
+/-- `cli <l z D w> <storage> <pathHex> <sizesHex> <sexpHex>`: the command line from the parsed program on -/
+def handleCli (lib : String) (args : List String) : String :=
+  match args with
+  | [flags, storage, path, sizes, sx] =>
+    let f := flags.toList.map (· == '1')
+    match storage.toInt?, unhexStr path, unhexStr sizes, unhexStr sx with
+    | some st, some path, some sz, some sxText =>
+      if f.length != 4 then "bad-op" else
+      let o := Cli.options { l := f[0]!, z := f[1]!, D := f[2]!, w := f[3]!, s := st, sizes := parseSizes sz } path
+      match (Sx.parse sxText).bind Ast.progOf with
+      | none => "bad-op ast"
+      | some p =>
+        match Compile.convertAst o p with
+        | (.ok text, procname) =>
+            (match ProcBank.finish lib text procname o.outputDependencies o.defaultStrStorage with
+             | some out => s!"ok {hexStr (String.ofList (Cli.os9LineEnds out.toList))}"
+             | none => "internal UnboundLocalError")
+        | (.refused k, _) => s!"refused {k}"
+        | (.internal k, _) => s!"internal {k}"
+    | _, _, _, _ => "bad-op"
+  | ["nl", t] => match unhexStr t with
+      | some s => "ok " ++ hexStr (String.ofList (Cli.universalNewlines s.toList))
+      | none => "bad-op"
+  | _ => "bad-op"
+
 def handle (lib : String) (line : String) : String :=
   match (line.trimAscii.toString.splitOn " ") with
   | "img" :: args => handleImg args
   | "convast" :: args => handleConvAst lib args
   | "procbank" :: args => handleProcBank args
   | "lib" :: args => handleLib args
+  | "cli" :: args => handleCli lib args
   | ["c14table"] =>
       "ok " ++ ";".intercalate (CocoVerif.Props.C14.emittedCalls.map (fun c =>
         c.2.1 ++ "|" ++ ",".intercalate c.2.2.1 ++ "|" ++ (if c.2.2.2 then "1" else "0")))
